@@ -28,7 +28,7 @@ def observers_lines(rng, jobs):
 
 class Check(PropertyCheck):
     ID = "C05"
-    LEAN_MODULE = "JobShopProofs.Properties.C05"
+    LEAN_MODULE = "JobShopProofs.ObserversTransparent"
     THEOREMS = [
         "JS.C05_answers",
         "JS.C05_spec_ignores_memo",
@@ -38,6 +38,9 @@ class Check(PropertyCheck):
         "JS.C05_ongoing_iff",
         "JS.C05_partition_ongoing",
         "JS.ask_ok",
+        "JS.observers_transparent",
+        "JS.C05_world_answers",
+        "JS.C10_observers_do_not_disturb",
     ]
     RULE = ("random instance x random filter x random valid history; in every state a burst of 3-9 queries drawn with "
             "repetition and in random order from the 13 parameter-free and 7 parameterised queries (plus the "
